@@ -32,11 +32,15 @@ def empty_points(S):
 
 
 def mk_bool(S, op, with_params=True):
+    """op: 'union' | 'cut' | 'intersection', optionally 'union/disjoint' or 'cut/contained' (the volume-rule flags: a
+    declaration about the operands that must not change membership, normals or boxes)"""
+    op, _, flag = op.partition("/")
     sp = S.new(R2, "x")
     pd = {"t": 1} if with_params else None
     A = abstract_domain(S, "A", sp, pd)
     B = abstract_domain(S, "B", sp, pd)
-    dom = S.new(BOOL[op][0], A.obj, B.obj)
+    kw = {"disjoint": True} if flag == "disjoint" else ({"contained": True} if flag == "contained" else {})
+    dom = S.new(BOOL[op][0], A.obj, B.obj, **kw)
     return A, B, dom
 
 
@@ -58,12 +62,12 @@ def combine(op, a, b):
 
 
 # ----------------------------------------------------------------------------- C05 membership
-@scenario("C05", [UNION + "._contains", CUT + "._contains", INTER + "._contains"], configs=["union", "cut", "intersection"], history=True)
+@scenario("C05", [UNION + "._contains", CUT + "._contains", INTER + "._contains"], configs=["union", "cut", "intersection", "union/disjoint", "cut/contained"], history=True)
 def boolean_contains(S):
     """post: one truth value per row; union = or, cut = and-not, intersection = and of the operand predicates,
-    each point with its own parameter row"""
-    op = S.cfg
-    A, B, dom = S.once(lambda: mk_bool(S, op))
+    each point with its own parameter row -- also for operations declared disjoint / contained"""
+    op = S.cfg.split("/")[0]
+    A, B, dom = S.once(lambda: mk_bool(S, S.cfg))
     N = S.int("N", 1)
     X, pts, params, pv = point_rows(S, N)
     res = S.method(dom, "_contains", pts, params).val
@@ -81,12 +85,13 @@ def bd_oracle(op, inA, inB, onA, onB):
     return z3.Or(z3.And(onA, inB), z3.And(onB, inA))
 
 
-@scenario("C05", [UNIONB + "._contains", CUTB + "._contains", INTERB + "._contains"], configs=["union", "cut", "intersection"], history=True)
+@scenario("C05", [UNIONB + "._contains", CUTB + "._contains", INTERB + "._contains"], configs=["union", "cut", "intersection", "union/disjoint", "cut/contained"], history=True)
 def boolean_boundary_contains(S):
     """post: boundary membership of a Boolean combination = regularised-CSG formula over the operand predicates
-    (pre: operand boundary points belong to the closed operand:  OnBd_X => In_X)"""
-    op = S.cfg
-    A, B, dom, bd = S.once(lambda: (lambda A, B, dom: (A, B, dom, S.getattr(dom, "boundary")))(*mk_bool(S, op)))
+    (pre: operand boundary points belong to the closed operand:  OnBd_X => In_X) -- the same formula when the operation
+    was declared disjoint / contained (the removed part may touch the boundary of the outer domain from inside)"""
+    op = S.cfg.split("/")[0]
+    A, B, dom, bd = S.once(lambda: (lambda A, B, dom: (A, B, dom, S.getattr(dom, "boundary")))(*mk_bool(S, S.cfg)))
     N = S.int("N", 1)
     X, pts, params, pv = point_rows(S, N)
     res = S.method(bd, "_contains", pts, params).val
